@@ -219,6 +219,11 @@ theorem upgrade_packet_first (s : St) (s' : St) (es : List Unit) (hs : step s .c
     chooses the transport and enqueues under transportMu (read from the source; see C19 `send_chooses_and_enqueues_under_lock`) -/
 theorem send_is_one_step : Gen.eioSendUnderTransportLock = true := by decide
 
+/-- the client's swap (new transport current, old one discarded, UPGRADE sent) is one critical section of transportMu, so that
+    UPGRADE is the first packet on the new transport (`upgrade_packet_first` is about the code as it is); and it runs off the new
+    transport's reader goroutine, which must stay free to notice that the server gave the attempt up (D39) - read from the source -/
+theorem client_swap_is_one_step : Gen.eioClientUpgradeSentUnderLock = true ∧ Gen.eioClientFinishUpgradeAsync = true := by decide
+
 /-! non-vacuity: a burst queued exactly when the transports are swapped -/
 example : (sys.run {} [.sSend 1, .sSend 2, .pollTake, .sSend 3, .cSend 7, .postDeliver, .swap, .cSend 8, .upgrade, .sSend 4,
     .pollDeliver, .s2cDeliver, .s2cDeliver, .c2sDeliver]).map (fun p => (p.1.cGot, p.1.sGot)) = some ([1, 2, 3, 4], [7, 8]) := by decide
